@@ -14,6 +14,9 @@ Operations and the file-system calls they make, in order (writes to S happen whe
 * write  : (buffered) write S*
 * stop   : write S* (flush, header patch), write T* (gzip), close T, close S, unlink S, rename T → F
 * discard: write S*, write T*, close T, close S, unlink S, unlink T      (`Stop()`, deferred in handleConn)
+* start that fails while writing the header (`WriteHeader` error, e.g. a header string over 255 bytes):
+  creat T, creat S, creat T, then `writer.Close()`: write S*, write T*, close T, close S, unlink S —
+  the partial T stays until the next start-up clean-up and the recorder holds no writer
 
 A crash (process kill) can happen between any two calls.
 -/
@@ -42,6 +45,9 @@ def stopSteps (i : Nat) : List Sys :=
   [.write ⟨i, .S⟩, .write ⟨i, .T⟩, .close ⟨i, .T⟩, .close ⟨i, .S⟩, .unlink ⟨i, .S⟩, .rename ⟨i, .T⟩ ⟨i, .F⟩]
 def discardSteps (i : Nat) : List Sys :=
   [.write ⟨i, .S⟩, .write ⟨i, .T⟩, .close ⟨i, .T⟩, .close ⟨i, .S⟩, .unlink ⟨i, .S⟩, .unlink ⟨i, .T⟩]
+def startFailSteps (i : Nat) : List Sys :=
+  [.creat ⟨i, .T⟩, .creat ⟨i, .S⟩, .creat ⟨i, .T⟩,
+   .write ⟨i, .S⟩, .write ⟨i, .T⟩, .close ⟨i, .T⟩, .close ⟨i, .S⟩, .unlink ⟨i, .S⟩]
 
 /-- recorder-level operations on one directory; `i` identifies the recording (fresh per start) -/
 inductive Op
@@ -49,6 +55,7 @@ inductive Op
   | write (i : Nat)
   | stop (i : Nat)
   | discard (i : Nat)
+  | startFail (i : Nat)
   deriving Repr
 
 def Op.steps : Op → List Sys
@@ -56,6 +63,7 @@ def Op.steps : Op → List Sys
   | .write i => writeSteps i
   | .stop i => stopSteps i
   | .discard i => discardSteps i
+  | .startFail i => startFailSteps i
 
 /-! ## Directory model -/
 
